@@ -28,7 +28,7 @@ SPECS = {
             {"name": "hist", "tag": "c02", "extra": "prop=C02", "n": {"quick": 500, "thorough": 8000}},
             {"name": "erht", "n": {"quick": 300, "thorough": 3000}, "seed_off": 11},
         ],
-        "explanation": "Histories on projects with snapshot interval/threshold in {1,2,3,5,10}, late attachers, detach/re-attach and in-flight edits: every attached client (many of them fed by snapshots) must show what a replica that applied every change one by one shows; the server-side rebuild at the current head (cache as-is, warm, and after the caller mutated the returned copy) and the cold rebuild of every historical serverSeq must equal that replica too. The ElementRHT engine checks the structural fact snapshots rely on (no live-but-unlinked member).",
+        "explanation": "Histories on projects with snapshot interval/threshold in {1,2,3,5,10}, late attachers, detach/re-attach and in-flight edits: every attached client (many of them fed by snapshots) must show what a replica that applied every change one by one shows; the server-side rebuild at the current head (cache as-is, warm, and after the caller mutated the returned copy) and the cold rebuild of every historical serverSeq must equal that replica too. The ElementRHT engine checks the structural fact snapshots rely on (no live-but-unlinked member). Step Sh: the background snapshot job of a push is held at its first storage read while the next client pushes (a snapshot job overtaken by a later push).",
         "assumptions": [
             "objects: the snapshot round trip is a theorem on the model of converter.fromJSONObject (any listing order of the members, then any later Sets), and the model's decode is compared with the real ObjectToBytes/BytesToObject on every table the erht engine reaches (members listed in an engine-chosen permutation; all members, tombstones, movedAt and links compared)",
             "PARTIAL: no theorem about the byte codec itself, arrays with moved elements, text, tree or the server rebuild; those are decided by the differential oracle",
